@@ -318,7 +318,18 @@ def lstep (s : LSt) : LAct → Option LSt
         some { s with inWork := false, batch := b, finished := s.finished ++ [i], log := s.log ++ [(i, true)] } else none
     | [] => none
 
-/-! ## iv_thread: one created thread, seen from its creator (`iv_thread_posix.c`) -/
+/-! ## iv_thread: one created thread and its creator (`iv_thread_posix.c`)
+
+The record `struct iv_thread` is shared by the thread and its creator.  `iv_thread_lock` serialises the thread's exit
+(`iv_thread_destructor`: test `orphaned`, set `exited`, post `dead`) against the creator tearing its loop down while
+the thread has not been joined (`iv_thread_tls_deinit_thread`: detach, unlink, unregister `dead`, free the record if
+`exited`, else set `orphaned`); each is one action here because each runs entirely under that lock.  Whoever comes
+second frees the record.
+
+History: before the repair (harness/iv_thread_creator_deinit.patch) `iv_thread_tls_deinit_thread` only detached the
+thread; `dead` stayed registered in the creator's iv_state, which `__iv_deinit` then freed, and the destructor posted
+into it (heap-use-after-free, and the record leaked).  Witness on the old model, for every exit mode:
+run, creatorDeinit, [deinit], leave, destruct.  Scenario: corpus/C13/creator-deinit-live-thread.scn. -/
 
 /-- how the thread function ends -/
 inductive ExitMode where
@@ -330,8 +341,8 @@ inductive TPc where
   | body          -- inside start_routine, iv state initialised (iv_init called)
   | bodyNoState   -- inside start_routine, no iv state (never initialised, or already deinitialised)
   | exiting       -- start_routine returned / pthread_exit called: TLS destructors run
-  | exited        -- destructors done (`dead` posted), thread terminated
-  | joined
+  | exited        -- destructors done, thread terminated
+  | joined        -- the creator's iv_thread_died joined it and freed the record
 deriving DecidableEq, Repr
 
 structure TSt where
@@ -342,17 +353,20 @@ structure TSt where
   ivState  : Bool := false     -- the thread has an iv_state
   deinits  : Nat := 0          -- ghost: __iv_deinit calls in the thread
   posts    : Nat := 0          -- ghost: iv_event_post(&thr->dead) calls
-  creatorGone : Bool := false  -- the creator left iv_main through iv_quit and called iv_deinit: its iv_state is freed
-  fault    : Bool := false     -- a freed iv_state was used
+  creatorGone : Bool := false  -- the creator has deinitialised its loop (its iv_state is freed)
+  orphaned : Bool := false     -- thr->orphaned
+  exited   : Bool := false     -- thr->exited
+  frees    : Nat := 0          -- ghost: free(thr) calls
+  fault    : Bool := false     -- a freed iv_state or a freed record was used
 
 inductive TAct where
   | run        -- the thread starts: iv_thread_handler sets the TLS key, calls start_routine (which calls iv_init unless noInit)
   | deinit     -- the body calls iv_deinit (modes ret, pexit)
   | leave      -- the body returns or calls pthread_exit
-  | destruct   -- TLS destructors: iv_state_destructor (if a state is left), then iv_thread_destructor posts `dead`
-  | died       -- creator: iv_thread_died: pthread_join, unregister `dead`, free
-  | creatorDeinit  -- creator (user action): iv_quit, iv_main returns, iv_deinit: iv_thread_tls_deinit_thread detaches the
-                   -- thread but leaves `dead` registered in (and pointing to) the iv_state that is then freed
+  | destruct   -- TLS destructors: iv_state_destructor (if a state is left), then iv_thread_destructor (under iv_thread_lock)
+  | died       -- creator's loop: iv_thread_died: pthread_join, unlink, unregister `dead`, free the record
+  | creatorDeinit  -- creator: iv_deinit (after iv_quit, or without ever running iv_main), or its loop-state destructor at
+                   -- thread exit: iv_thread_tls_deinit_thread (under iv_thread_lock), then the iv_state is freed
 deriving DecidableEq, Repr
 
 def ExitMode.deinits : ExitMode → Bool
@@ -370,14 +384,25 @@ def tstep (s : TSt) : TAct → Option TSt
     if (s.pc = .body ∧ s.mode.deinits = false) ∨ s.pc = .bodyNoState then some { s with pc := .exiting } else none
   | .destruct =>
     if s.pc = .exiting then
-      -- iv_event_post(&thr->dead) locks `thr->dead.owner->event_list_mutex`: a use of the creator's iv_state
-      some { s with pc := .exited, ivState := false, deinits := if s.ivState then s.deinits + 1 else s.deinits,
-                    deadOwed := true, posts := s.posts + 1, fault := s.fault || s.creatorGone }
+      let s := { s with pc := .exited, ivState := false, deinits := if s.ivState then s.deinits + 1 else s.deinits,
+                        fault := s.fault || decide (s.frees ≠ 0) }      -- reads thr->orphaned
+      if s.orphaned then
+        some { s with frees := s.frees + 1 }
+      else
+        -- iv_event_post(&thr->dead) locks thr->dead.owner->event_list_mutex: a use of the creator's iv_state
+        some { s with exited := true, deadOwed := true, posts := s.posts + 1, fault := s.fault || s.creatorGone }
     else none
   | .died =>
     if s.pc = .exited ∧ s.deadOwed = true ∧ s.creatorGone = false then
-      some { s with pc := .joined, deadOwed := false, deadReg := false } else none
+      some { s with pc := .joined, deadOwed := false, deadReg := false, frees := s.frees + 1,
+                    fault := s.fault || decide (s.frees ≠ 0) }
+    else none
   | .creatorDeinit =>
-    if s.pc ≠ .joined ∧ s.creatorGone = false then some { s with creatorGone := true } else none
+    if s.creatorGone = false then
+      if s.deadReg then        -- the record is still on the creator's child_threads list
+        let s := { s with creatorGone := true, deadReg := false, deadOwed := false, fault := s.fault || decide (s.frees ≠ 0) }
+        if s.exited then some { s with frees := s.frees + 1 } else some { s with orphaned := true }
+      else some { s with creatorGone := true }
+    else none
 
 end Ivy.Work
